@@ -141,9 +141,14 @@ def get_atomic_sequence(xsd_type: Optional[XsdTypeProtocol],
             if namespaces is None:
                 namespaces = {}
             if ':' not in s:
-                return value.__class__(namespaces.get(''), s)
-            else:
+                # the default namespace has the key None in the nsmap of lxml
+                return value.__class__(namespaces.get('') or namespaces.get(None), s)
+
+            try:
                 return value.__class__(namespaces[s.split(':')[0]], s)
+            except KeyError:
+                msg = f'no namespace found for prefix {s.split(":")[0]!r}'
+                raise xpath_error('FONS0004', msg, namespaces=namespaces) from None
 
     if xsd_type is None:
         yield dt.UntypedAtomic(text or '')
